@@ -43,6 +43,41 @@ def run(R):
             "every flush() of a pending batch that returns has computed the batch",
             "flush() can return without computing the batch (e.g. an early return when it has no items): the batch stays pending, the flush body is not run, "
             "and flushing it again passes silently instead of raising BatchingError", cfg.fmt_path(pf) if pf else None)
+    # ... and the flush body is entered once: while it runs the batch is still pending, so a request for the value of one of its
+    # unset items (from the body, from a subscriber of an item it has just set) comes back to flush()/_compute().  A flag, set
+    # before the body is entered and tested first (raising when set), turns that nested request into an error.
+    bc_ = bb.methods.get("_compute")
+    R.need(bc_ is not None, "anchor vanished: BatchBase._compute")
+    guarded = False
+    why = "no boolean field is set before the flush body is entered"
+    for owner in (bc_, fl):
+        ocfg = cfg_of(owner)
+        entries = [n for n, c in kit.call_sites(owner, lambda c: q.call_name(c) in ("self._flush",) or (owner is fl and q.call_name(c) in ("self.error", "self._compute")))]
+        sets_ = {}
+        for n in ocfg.nodes:
+            if n.kind == "stmt" and isinstance(n.ast, ast.Assign) and len(n.ast.targets) == 1 and isinstance(n.ast.targets[0], ast.Attribute) \
+                    and q.src(n.ast.targets[0].value) == "self" and isinstance(n.ast.value, ast.Constant) and n.ast.value.value is True:
+                sets_.setdefault(n.ast.targets[0].attr, []).append(n)
+        for fld, nodes_ in sets_.items():
+            if not entries or ocfg.find_path([ocfg.entry], entries, N, cut_nodes=nodes_) is not None:
+                continue        # the body can be entered without the flag being set
+
+            def clear(nd, fld=fld):
+                if nd.kind != "test":
+                    return None
+                k_, s_, pos_ = q.atom_test(nd.ast)
+                if k_ == "truth" and s_ == "self." + fld:
+                    return "F" if pos_ else "T"
+                return None
+            if kit.path_avoiding_guard(ocfg, nodes_, clear, N) is None and kit.guard_edges_exist(ocfg, clear):
+                guarded = True
+            else:
+                why = "self.%s is set before the flush body but not tested first" % fld
+    R.check(guarded, "C11.FLUSH-NORAISE", bb.qualname + ":no-reentry", R.site(bc_),
+            "the flush body cannot be entered while it is running (a flag is tested, then set, before self._flush())",
+            "nothing stops the flush body from being entered again while it runs (%s): item.value() on an unset item of the batch being flushed - from the "
+            "body, or from a subscriber of an item it has just set - calls flush() again, the body runs twice for one flush, and the nested run's "
+            "FutureIsAlreadyComputed becomes the batch's outcome" % why)
     # ---- IS-FLUSHED means finished
     isf = bb.methods.get("is_flushed")
     R.need(isf is not None, "anchor vanished: BatchBase.is_flushed")
@@ -242,6 +277,28 @@ def run(R):
     R.check(p is None, "C11.ITEM-PULL", ic.qualname + ":flushes", R.site(ic),
             "a pending batch is flushed when one of its items is asked for its value",
             "an item of a pending batch can be asked for its value without its batch being flushed")
+    # ---- a debug batch registers under, and looks itself up by, the very name it was given (an empty name is a name)
+    dbc = repo.cls("batching.DebugBatch")
+    dbi = dbc.methods.get("__init__")
+    R.need(dbi is not None, "anchor vanished: DebugBatch.__init__")
+    np_ = q.param_names(dbi.node)[1]
+    nstores = [n for n in q.scope_nodes(dbi.node) if isinstance(n, ast.Assign) and any(q.src(t) == "self.name" for t in n.targets)]
+    R.check(len(nstores) == 1 and q.src(nstores[0].value) == np_, "C11.DEBUG-SWITCH", dbi.qualname + ":name", R.site(dbi, nstores[0] if nstores else None),
+            "DebugBatch stores the name it was created with", "DebugBatch stores `%s` as its name, not the `%s` it was registered under: for a name that the expression "
+            "changes ('' with `or`) the batch never finds itself in the registry - after its flush it stays the active batch of that name and every later item "
+            "fails" % (q.src(nstores[0].value) if nstores else None, np_))
+    # ---- the batch's completion is announced by the base implementation (which contains subscriber failures): the last thing
+    # _computed does on every path
+    cdm = bb.methods.get("_computed")
+    R.need(cdm is not None, "anchor vanished: BatchBase._computed")
+    ccfg_ = cfg_of(cdm)
+    basec = [n for n, c in kit.call_sites(cdm, lambda c: q.src(c.func).endswith("FutureBase._computed") or q.src(c.func).startswith("super("))]
+    pb_ = ccfg_.find_path([ccfg_.entry], [ccfg_.exit], N, cut_nodes=basec)
+    direct = [n for n, c in kit.call_sites(cdm, lambda c: (q.call_name(c) or "").startswith("self.on_computed"))]
+    R.check(pb_ is None and basec and not direct, "C11.CAPTURE", cdm.qualname + ":announces", R.site(cdm),
+            "BatchBase._computed hands over to FutureBase._computed(self) on every path",
+            "BatchBase._computed %s: a subscriber of the batch that raises makes cancel() raise, and flush() raise for a failing body"
+            % ("triggers self.on_computed itself, without the base implementation's containment" if direct else "can return without announcing the batch's completion"))
     # ---- DEBUG-SWITCH
     db = repo.cls("batching.DebugBatch")
     ts = db.methods.get("_try_switch_active_batch")
